@@ -14,10 +14,6 @@ NOT_APPLICABLE = {
            "recursion over ir::Node, Peekable, String and hashbrown do not close under Kani (10 min / 6-20 GB) and are "
            "rejected by Verus; stack exhaustion is outside both tools' models; the few numeric helpers that do verify do "
            "not address 'any input yields Ok or Err'",
-    "C11": "every table needs an independent Unicode 17 oracle; only std's White_Space/Alphabetic-style predicates exist "
-           "in the sandbox (2-6 of ~300 tables) and the table harnesses were not built in this revision; nothing is claimed",
-    "C14": "the utf16 decoder contracts (A6) are feasible (loop-free, A3-shaped) but were not built in this revision; "
-           "whole-search agreement with UTF-8 needs C01-level composition; nothing is claimed",
     "C17": "expand_replacement/replace* are String/Peekable<Chars> code: the bounded harness that was written "
            "(j2_expand_replacement_2) does not terminate under CBMC within 10 min / memory cap, and Verus rejects "
            "Peekable and str byte reasoning; a run that does not terminate is not evidence",
